@@ -337,6 +337,11 @@ def run_shard(shard: int, nshards: int, seed: int, tier: str) -> ShardResult:
     res.extra["schedules_total"] = 0
     res.extra["programs_exhaustive"] = 0
     res.extra["programs_sampled"] = 0
+    res.extra["exhaustive_scope"] = (
+        "schedules, per program: every leaf of the reduced choice tree when it "
+        f"has <= {pl['max_leaves']} leaves (programs_exhaustive), else "
+        f"{pl['max_leaves']} leaves + {pl['n_random']} random schedules "
+        "(programs_sampled); programs themselves are sampled")
 
     k = [0]
 
